@@ -8,7 +8,7 @@ THEOREMS = ["Kalign.weave", "Kalign.degap_makeLinear", "Kalign.C01_merge_integri
             "Kalign.C01_rows", "Kalign.C01_no_allgap_column", "Kalign.C01_expandPath_valid",
             # the k-means guide tree (>= 100 sequences) keeps every sequence: leaves of the tree = the samples
             "Kalign.Kmeans.split2_partition", "Kalign.Kmeans.bisectingKmeans_leaves", "Kalign.Kmeans.bisectingKmeans_fuel"]
-CHECKER = "lake build KalignModel.Props.Pipeline && lake env lean KalignModel/Audit/C01.lean"
+CHECKER = "lake build KalignModel.Props.PipelineFile && lake env lean KalignModel/Audit/C01.lean"
 
 
 # ------------------------------------------------------------------ generators for the unit ops
@@ -178,7 +178,25 @@ def system_cases(ctx, n, thorough=False):
             api = "file"
         fmt = rng.choice(["fasta", "msf", "clu"])
         th = rng.choice([1, 1, 2, 4, 7, 16])
-        cases.append(Case(recs, type_, pens[0], pens[1], pens[2], th, fmt, api if len(recs) < 90 else "file", evlog=(len(recs) <= 60)))
+        c = Case(recs, type_, pens[0], pens[1], pens[2], th, fmt, api if len(recs) < 90 else "file", evlog=(len(recs) <= 60))
+        if c.api == "file" and rng.random() < 0.3 and all(s for _, s in recs):
+            # the same records in an untidy FASTA file: stray gap glyphs that do not form an alignment (rows of unequal length), a trailing
+            # stop-codon '*', or an aligned block followed by unaligned records -- kalign announces it will drop the gaps and align
+            style = rng.choice(["stray", "star", "mixed"])
+            out = []
+            for k, (nm, sq) in enumerate(recs):
+                row = sq
+                if style == "stray" or (style == "mixed" and k >= len(recs) // 2 and rng.random() < 0.5):
+                    row = "".join(ch + (rng.choice("-.") * rng.randint(1, 3) if rng.random() < 0.08 else "") for ch in sq)
+                elif style == "star":
+                    row = sq + ("*" if rng.random() < 0.7 else "")
+                elif style == "mixed" and k < len(recs) // 2:
+                    L = max(len(x) for _, x in recs[:len(recs) // 2]) + 2
+                    row = sq + "-" * (L - len(sq))
+                out.append(">%s\n%s\n" % (nm, row))
+            c.intext = "".join(out)
+            c.tag = "untidy-fasta-" + style
+        cases.append(c)
     return cases
 
 
@@ -226,7 +244,7 @@ def run(ctx):
                                             "every merge of every run, see C07)"]
     ctx.cov["_rule"] = ("system cases: evolved DNA/RNA/protein families (duplicates, length ratios, empty members), all types, random penalty "
                         "overrides, threads 1..16, both APIs, three formats; non-trivial = distinct (input, config) whose output has >= 3 rows and >= 1 gap")
-    ok = C.lean_obligations(ctx, "C01", THEOREMS + C.pipeline_theorems(["kalignRunWith_integrity", "kalignRun_integrity"]), module="Pipeline")
+    ok = C.lean_obligations(ctx, "C01", THEOREMS + C.pipeline_theorems(["kalignRunWith_integrity", "kalignRun_integrity"]) + C.pipefile_theorems(["kalignFile_integrity", "kalignFile_no_fault"]), module="PipelineFile")
     kvh = C.build_harness("asan")
     # 1. unit correspondence
     lines = unit_ops(ctx, 3000 if ctx.quick else 40000)
